@@ -59,7 +59,7 @@ def run(pid, tier, seed):
     cov = {
         "states": sum(m["states"] for m in mcs),
         "transitions": sum(m["transitions"] for m in mcs),
-        "traces_validated_against_impl": vb["strict_accepted"] + len(vb["divergences"]),
+        "traces_validated_against_impl": vb["strict_accepted"] + vb["lenient_accepted"] + len(vb["divergences"]),
         "samples": summ.get("samples", [])[:3],
         "evaluations": summ["runs"],
         "distinct_nontrivial": summ["distinct_nontrivial"],
@@ -69,6 +69,8 @@ def run(pid, tier, seed):
                 "distinct = distinct event-sequence hash; non-trivial = at least one preemption",
         "events_validated": vb["events"],
         "strict_accepted_runs": vb["strict_accepted"],
+        "lenient_only_accepted_runs": vb["lenient_accepted"],
+        "unvalidated_runs": vb["unvalidated"],
         "divergences": len(vb["divergences"]),
         "rejected_runs": len(vb["violations"]),
         "deviation_runs": vb["deviations"],
